@@ -71,6 +71,8 @@ func main() {
 			usage()
 		}
 		os.Exit(replay(os.Args[2]))
+	case "selftest":
+		os.Exit(selftest())
 	case "list":
 		names := make([]string, 0, len(registry))
 		for k := range registry {
